@@ -1,10 +1,48 @@
 import LentilVerif.Lemmas.FourierPad
+import LentilVerif.Lemmas.FourierWiring
 /-! # C01 — the matrix-triple-product DFT equals the defining Fourier sum and is invertible
 
 Property theorems only. `dft2`/`idft2` are the executable model of `lentil/fourier.py` (Model/Fourier.lean) instantiated
 at `K = ℂ`, `R = ℝ` (`Lemmas/Fourier.lean`); the same definitions run at complex doubles in the correspondence. -/
 namespace Lentil.C01
 open Lentil Finset
+
+/-- **the model is the source's wiring.** `Gen/FourierWiring.lean` is regenerated from `fourier.py` on every run: the centring
+`arange(n) − floor(n/2)`, which coordinate vector / offset / shift / sampling feeds which factor of `E1`, `E2`, the `.T`, the
+product `np.dot(E1.dot(f), E2)` with its contraction lengths, the `broadcast_to(·, (2,))` unpackings and the expression
+applied under `if unitary:`. The hand model `dft2` equals those generated definitions entry by entry (and has the generated
+output shape), so an edit of any of these in the source breaks this theorem. -/
+theorem dft2_follows_source_wiring (f : Arr ℂ) (αr αc : ℝ) (M N : ℤ) (shr shc : ℝ) (offr offc : ℤ) (unitary : Bool) (u v : ℤ) :
+    (dft2 f αr αc M N shr shc offr offc unitary).get u v =
+      (if unitary then
+        Gen.fwDft2Prod sumRange
+          (fun row col => srcExp Gen.fwExpCoeff1 (Gen.fwDft2E1Arg (fun i : ℤ => (i : ℝ)) f.s0 f.s1 αr αc M N shr shc offr offc row col))
+          (fun row col => srcExp Gen.fwExpCoeff2 (Gen.fwDft2E2Arg (fun i : ℤ => (i : ℝ)) f.s0 f.s1 αr αc M N shr shc offr offc row col))
+          f.get f.s0 f.s1 M N u v
+        * ((Gen.fwDft2Scale (fun i : ℤ => (i : ℝ)) Real.sqrt (fun x => |x|) f.s0 f.s1 αr αc M N shr shc offr offc : ℝ) : ℂ)
+      else
+        Gen.fwDft2Prod sumRange
+          (fun row col => srcExp Gen.fwExpCoeff1 (Gen.fwDft2E1Arg (fun i : ℤ => (i : ℝ)) f.s0 f.s1 αr αc M N shr shc offr offc row col))
+          (fun row col => srcExp Gen.fwExpCoeff2 (Gen.fwDft2E2Arg (fun i : ℤ => (i : ℝ)) f.s0 f.s1 αr αc M N shr shc offr offc row col))
+          f.get f.s0 f.s1 M N u v) ∧
+    ((dft2 f αr αc M N shr shc offr offc unitary).s0, (dft2 f αr αc M N shr shc offr offc unitary).s1)
+      = Gen.fwDft2OutShape f.s0 f.s1 M N ∧
+    Gen.fwDft2ShapeDefault f.s0 f.s1 = (f.s0, f.s1) := by
+  refine ⟨?_, rfl, rfl⟩
+  unfold dft2
+  simp only [dftKernel_wired1 f.s0 f.s1 αr αc M N shr shc offr offc, dftKernel_wired2 f.s0 f.s1 αr αc M N shr shc offr offc,
+    Gen.fwDft2Prod, Gen.fwDft2Scale, Int.ofNat_eq_natCast, CxLike.ofReal, RealLike.sqrt, RealLike.abs]
+
+open ComplexConjugate in
+/-- **`idft2` is the source's plumbing**: `conj(dft2(conj F, α, shape, shift, offset = default (0,0), unitary))`, divided by
+`F.size` exactly when not unitary (`Gen.fwIdft2`, regenerated from `fourier.py`). -/
+theorem idft2_follows_source_wiring (F : Arr ℂ) (αr αc : ℝ) (M N : ℤ) (shr shc : ℝ) (unitary : Bool) (i j : ℤ) :
+    (idft2 F αr αc M N shr shc unitary).get i j =
+      Gen.fwIdft2 (starRingEnd ℂ) (fun z n => z / (n : ℂ))
+        (fun G un a b => (dft2 { F with get := G } αr αc M N shr shc Gen.fwIdft2Offset.1 Gen.fwIdft2Offset.2 un).get a b)
+        F.get F.s0 F.s1 unitary i j := by
+  unfold idft2 Gen.fwIdft2
+  simp only [Gen.fwIdft2Offset, CxLike.conj, CxLike.divInt]
 
 /-- **defining sum.** For every input array, real samplings `αr`, `αc` (independent), output shape, real shifts, integer
 offsets, both flags and every output index `(u, v)`: the triple product `E1·f·E2` is the double sum over input samples of
@@ -89,7 +127,7 @@ theorem idft2_dft2_full_period (f : Arr ℂ) (m n : ℕ) (hm : f.s0 = m) (hn : f
     (idft2 (dft2 f (1 / (m : ℝ)) (1 / (n : ℝ)) m n 0 0 0 0 unitary) (1 / (m : ℝ)) (1 / (n : ℝ)) m n 0 0 unitary).get x y
       = f.get x y := by
   rw [idft2_get_eq]
-  simp only [dft2_s0, dft2_s1, Int.toNat_natCast, dft2_get_eq]
+  simp only [dft2C_s0, dft2C_s1, Int.toNat_natCast, dft2_get_eq]
   rw [pull_const]
   unfold dft2Sum
   simp only [hm, hn, Int.toNat_natCast]
